@@ -20,6 +20,7 @@ import (
 	"path/filepath"
 	"strings"
 
+	"github.com/hydraide/hydraide/app/core/hydra/swamp/beacon"
 	"github.com/hydraide/hydraide/app/core/hydra/swamp/chronicler"
 	v2 "github.com/hydraide/hydraide/app/core/hydra/swamp/chronicler/v2"
 	"github.com/hydraide/hydraide/app/core/hydra/swamp/treasure"
@@ -28,7 +29,8 @@ import (
 	"verif/harness/common"
 )
 
-var modes = []string{"fresh", "appended", "force-compact", "compact-from-index", "chronicler", "v2-legacy", "v2-appended", "v2-compacted", "open-writer"}
+var modes = []string{"fresh", "appended", "force-compact", "compact-from-index", "chronicler", "v2-legacy", "v2-appended", "v2-compacted", "open-writer",
+	"chron-life", "chron-life", "compact-if-needed", "compact-directory"}
 
 type fileSpec struct {
 	Mode    string `json:"mode"`
@@ -158,7 +160,48 @@ func writeSessions(path, name string, rng *common.Rng, sessions int) error {
 
 // legacy layout: version 2 header, NameLength 0, first entry of the first block is the metadata entry
 func writeV2Legacy(path, name string, rng *common.Rng) error {
-	all := append([]v2.Entry{{Operation: v2.OpMetadata, Key: v2.MetadataEntryKey, Data: []byte(name)}}, someEntries(rng, 1+rng.Intn(10))...)
+	return writeV2LegacyEntries(path, name, rng, someEntries(rng, 1+rng.Intn(10)))
+}
+
+// fragmented returns a log of nkeys keys each written `rounds` times (and some deleted): enough
+// dead entries for every fragmentation-triggered compaction (Load self-heal needs >= 100 entries
+// in the header and more than 30% dead)
+func fragmented(rng *common.Rng) []v2.Entry {
+	nkeys := 34 + rng.Intn(30)
+	rounds := 3 + rng.Intn(2)
+	var es []v2.Entry
+	for r := 0; r < rounds; r++ {
+		for k := 0; k < nkeys; k++ {
+			es = append(es, v2.Entry{Operation: uint8(1 + rng.Intn(2)), Key: fmt.Sprintf("key-%d", k), Data: mustTreasureBytes(fmt.Sprintf("key-%d", k), fmt.Sprintf("v%d-%d", r, k))})
+		}
+	}
+	es = append(es, v2.Entry{Operation: v2.OpDelete, Key: "key-0"})
+	return es
+}
+
+func newTreasure(key, content string) treasure.Treasure {
+	tr := treasure.New(nil)
+	g := tr.StartTreasureGuard(false, guard.BodyAuthID)
+	tr.BodySetKey(g, key)
+	tr.SetContentString(g, content)
+	tr.ReleaseTreasureGuard(g)
+	return tr
+}
+
+// entries of files a chronicler will Load must hold decodable treasures
+func mustTreasureBytes(key, content string) []byte {
+	tr := newTreasure(key, content)
+	g := tr.StartTreasureGuard(true, guard.BodyAuthID)
+	defer tr.ReleaseTreasureGuard(g)
+	b, err := tr.ConvertToByte(g)
+	if err != nil {
+		return []byte("x")
+	}
+	return b
+}
+
+func writeV2LegacyEntries(path, name string, rng *common.Rng, entries []v2.Entry) error {
+	all := append([]v2.Entry{{Operation: v2.OpMetadata, Key: v2.MetadataEntryKey, Data: []byte(name)}}, entries...)
 	var body []byte
 	var bc, ec uint64
 	for len(all) > 0 {
@@ -226,6 +269,134 @@ func build(f *fileSpec, path string, rng *common.Rng) error {
 			c.Write(ts[:1])
 		}
 		return c.Close()
+	case "chron-life":
+		// A fragmented file under a name, then one to three chronicler objects in a row, each
+		// built by one of the constructors - with the name, or without one (NewV2 /
+		// NewV2WithConfig: the chronicler learns the name from the file in Load) - that load,
+		// write, compact through whatever trigger fires (Load self-heal, inline on Write/Close,
+		// ForceCompaction) and close.
+		base := strings.TrimSuffix(path, ".hyd")
+		switch rng.Intn(3) {
+		case 0:
+			fw, err := v2.NewFileWriterWithName(path, 16384, name)
+			if err != nil {
+				return err
+			}
+			for _, e := range fragmented(rng) {
+				if err := fw.WriteEntry(e); err != nil {
+					fw.Close()
+					return err
+				}
+			}
+			if err := fw.Close(); err != nil {
+				return err
+			}
+		case 1:
+			if err := writeV2LegacyEntries(path, name, rng, fragmented(rng)); err != nil {
+				return err
+			}
+		case 2:
+			c := chronicler.NewV2WithName(base, 3, name)
+			c.CreateDirectoryIfNotExists()
+			for r := 0; r < 3; r++ {
+				var ts []treasure.Treasure
+				for k := 0; k < 40; k++ {
+					ts = append(ts, newTreasure(fmt.Sprintf("key-%d", k), fmt.Sprintf("c%d-%d", r, k)))
+				}
+				c.Write(ts)
+			}
+			if err := c.Close(); err != nil {
+				return err
+			}
+		}
+		if _, err := os.Stat(path); err != nil {
+			return nil // the name was refused: nothing to load
+		}
+		for life := 0; life < 1+rng.Intn(3); life++ {
+			var c chronicler.Chronicler
+			switch rng.Intn(4) {
+			case 0:
+				c = chronicler.NewV2WithName(base, 3, name)
+			case 1:
+				c = chronicler.NewV2(base, 3)
+			default:
+				c = chronicler.NewV2WithConfig(base, 3, []int{1024, 16384}[rng.Intn(2)], []float64{0.3, 0.1, 0.5}[rng.Intn(3)])
+			}
+			c.CreateDirectoryIfNotExists()
+			b := beacon.New()
+			if rng.Chance(70) {
+				c.RegisterLiveCountFunction(b.Count)
+			}
+			if rng.Chance(85) {
+				c.Load(b)
+			}
+			for w := 0; w < rng.Intn(4); w++ {
+				var ts []treasure.Treasure
+				for k := 0; k < 1+rng.Intn(60); k++ {
+					ts = append(ts, newTreasure(fmt.Sprintf("key-%d", rng.Intn(40)), fmt.Sprintf("l%d-%d-%d", life, w, k)))
+				}
+				c.Write(ts)
+				if rng.Chance(15) {
+					c.Sync()
+				}
+			}
+			if rng.Chance(30) {
+				if err := c.ForceCompaction(); err != nil {
+					return err
+				}
+			}
+			if err := c.Close(); err != nil {
+				return err
+			}
+		}
+		return nil
+	case "compact-if-needed":
+		if err := writeSessions(path, name, rng, 1); err != nil {
+			return err
+		}
+		fw, err := v2.NewFileWriter(path, 1024)
+		if err != nil {
+			return err
+		}
+		for _, e := range fragmented(rng) {
+			if err := fw.WriteEntry(e); err != nil {
+				fw.Close()
+				return err
+			}
+		}
+		if err := fw.Close(); err != nil {
+			return err
+		}
+		_, err = v2.NewCompactor(path, 1024, []float64{0.1, 0.3, 0.9}[rng.Intn(3)]).CompactIfNeeded()
+		return err
+	case "compact-directory":
+		if err := writeSessions(path, name, rng, 2); err != nil {
+			return err
+		}
+		fw, err := v2.NewFileWriter(path, 16384)
+		if err != nil {
+			return err
+		}
+		for _, e := range fragmented(rng) {
+			if err := fw.WriteEntry(e); err != nil {
+				fw.Close()
+				return err
+			}
+		}
+		if err := fw.Close(); err != nil {
+			return err
+		}
+		// compacts every .hyd file of the directory, i.e. also the neighbours written before
+		res, err := v2.CompactDirectory(filepath.Dir(path), 16384, 0.2)
+		if err != nil {
+			return err
+		}
+		for _, r := range res {
+			if r != nil && r.Error != nil {
+				return r.Error
+			}
+		}
+		return nil
 	case "v2-legacy":
 		return writeV2Legacy(path, name, rng)
 	case "v2-appended":
@@ -314,7 +485,7 @@ func main() {
 	slog.SetDefault(slog.New(slog.NewTextHandler(io.Discard, nil)))
 	a := common.ParseArgs()
 	run := common.NewRun(a, "C29", "HV.Storage.C29Check")
-	run.Meta.Rule = "a directory case is a data directory of 1..8 real .hyd files (fresh, appended, compacted through each entry point, chronicler-written, legacy V2 layout plain/appended/compacted, still open in a writer) under random UTF-8 names (three-part, and two-/one-part/empty ones that the explorer must skip), scanned by the real explorer; a file case is one of those files with ReadSwampName / GetSwampName / LoadIndex observations and its header bytes; non-trivial file case = the file went through at least one append session, compaction or format upgrade, or is a legacy file; names of 301..65535 bytes with non-periodic content cluster around the 4096-byte page and the 16-bit field; junk (.hyd directories, empty/garbage/short .hyd files, swamp files under another extension) is mixed in; the SAME explorer then rescans after the directory changed (all or some swamps removed, swamps added, a file replaced or moved, nothing changed) and every scan is a directory case, with the other index views (pages, sanctuaries, realms, details, sizes) cross-checked; non-trivial directory = at least 3 listed swamps and one skipped file, or a rescan"
+	run.Meta.Rule = "a directory case is a data directory of 1..8 real .hyd files (fresh, appended, compacted through each entry point, chronicler-written, legacy V2 layout plain/appended/compacted, still open in a writer; fragmented files taken through one to three chronicler objects built with or without a name that Load/self-heal, write, compact inline, ForceCompaction and close; CompactIfNeeded; CompactDirectory) under random UTF-8 names (three-part, and two-/one-part/empty ones that the explorer must skip), scanned by the real explorer; a file case is one of those files with ReadSwampName / GetSwampName / LoadIndex observations and its header bytes; non-trivial file case = the file went through at least one append session, compaction or format upgrade, or is a legacy file; names of 301..65535 bytes with non-periodic content cluster around the 4096-byte page and the 16-bit field; junk (.hyd directories, empty/garbage/short .hyd files, swamp files under another extension) is mixed in; the SAME explorer then rescans after the directory changed (all or some swamps removed, swamps added, a file replaced or moved, nothing changed) and every scan is a directory case, with the other index views (pages, sanctuaries, realms, details, sizes) cross-checked; non-trivial directory = at least 3 listed swamps and one skipped file, or a rescan"
 	rng := common.NewRng(a.Seed, "C29")
 	ndirs := 150
 	if a.Tier == "thorough" {
@@ -373,6 +544,14 @@ func main() {
 				f.Mode = "appended"
 			}
 			serial++
+			if f.Mode == "compact-directory" {
+				// CompactDirectory rewrites every .hyd file next to this one: give it a directory of its own
+				if rel != "" {
+					f.Mode = "compact-if-needed"
+				} else {
+					rel = filepath.Join(fmt.Sprintf("%d", 100+r.Intn(3)), fmt.Sprintf("cd%d", serial), fmt.Sprintf("f%d.hyd", serial))
+				}
+			}
 			if rel == "" {
 				rel = filepath.Join(fmt.Sprintf("%d", 100+r.Intn(3)), fmt.Sprintf("%02x", r.Intn(256)), fmt.Sprintf("f%d.hyd", serial))
 			}
